@@ -188,6 +188,26 @@ Fixpoint py_mro (fuel : nat) (t : tbl) (c : nat) : res (list nat) :=
   end.
 Definition cpython_mro (t : tbl) (c : nat) : res (list nat) := py_mro (S (List.length t)) t c.
 
+(* The same with `object` spelled out, as CPython really does it: `o` (an index outside the table) is the only
+   base of every class written without bases, and its own MRO is [o]. *)
+Fixpoint py_mro_obj (fuel : nat) (t : tbl) (o : nat) (c : nat) : res (list nat) :=
+  match fuel with
+  | 0 => OutOfFuel
+  | S f =>
+      let bases := cbases (nth_cls t c) in
+      match bases with
+      | [] => cpython_mro_impl c [o] [[o]]
+      | _ => match map_res (py_mro_obj f t o) bases with
+             | Ok ms => cpython_mro_impl c bases ms
+             | Fail e => Fail e
+             | OutOfFuel => OutOfFuel
+             end
+      end
+  end.
+Definition cpython_mro_obj (t : tbl) (c : nat) : res (list nat) := py_mro_obj (S (List.length t)) t (List.length t) c.
+Definition add_obj (o : nat) (r : res (list nat)) : res (list nat) :=
+  match r with Ok m => Ok (m ++ [o]) | Fail e => Fail e | OutOfFuel => OutOfFuel end.
+
 (* tables a Python program can express: every base was created before the class *)
 Definition ordered (t : tbl) : Prop :=
   forall c b, c < List.length t -> In b (cbases (nth_cls t c)) -> b < c.
@@ -273,7 +293,8 @@ Definition run_C07 (s : sexp) : sexp :=
       end
   | SList [SStr "mro"; t; c] =>
       match dec_tbl t, as_nat c with
-      | Some t', Some c' => SList [enc_res (griffe_mro t' c'); enc_res (cpython_mro t' c'); of_bool (orderedb t')]
+      | Some t', Some c' => SList [enc_res (griffe_mro t' c'); enc_res (cpython_mro t' c'); of_bool (orderedb t');
+                                   enc_res (cpython_mro_obj t' c')]
       | _, _ => bad_input
       end
   | SList [SStr "class"; t; c] =>
@@ -282,7 +303,8 @@ Definition run_C07 (s : sexp) : sexp :=
           SList [enc_res (griffe_mro t' c'); enc_res (cpython_mro t' c'); of_bool (orderedb t');
                  SList (map (fun kv => SList [SStr (fst kv); enc_alias t' (snd kv)]) (inherited_members t' c'));
                  SList (map (enc_entry t') (all_members t' c'));
-                 SList (map (fun n => SList [SStr n; of_opt of_nat (cpython_getattr t' c' n)]) (all_names t'))]
+                 SList (map (fun n => SList [SStr n; of_opt of_nat (cpython_getattr t' c' n)]) (all_names t'));
+                 enc_res (cpython_mro_obj t' c')]
       | _, _ => bad_input
       end
   | _ => bad_input
